@@ -149,8 +149,8 @@ def run(ctx):
     ctx.traces += nv
     ctx.sample({"mode": "V", "event": next(e for e in evs if e.get("mode") == "V")})
     ctx.stage("V", kind="code->spec", events=len(evs), rejected=rej)
-    ctx.trusted += ["TLC 1.8", "harness identity bookkeeping (id() of vertex objects)", "tie-free tolerances (squared tolerance a/7)", "vlib TLA value parser"]
-    ctx.assumptions += ["vertices are integer lattice points mapped through exact affine maps; the tolerance is sqrt(a/7) scaled, never an exact tie",
+    ctx.trusted += ["TLC 1.8", "harness identity bookkeeping (id() of vertex objects)", "tolerances with squared value a/7 are tie-free; the exact tolerances 1, 2, 3, 5, 10 allow exact ties (a vertex exactly at the tolerance is kept)", "vlib TLA value parser"]
+    ctx.assumptions += ["vertices are integer lattice points mapped through exact affine maps (lists, every fourth call tuples)",
                         "float rounding on arbitrary coordinates is not modelled"]
     return ctx.finish(
         rule="G: every vertex list of length <= 4|5 on the 3x3 lattice x tolerances (positive, zero, negative) x 4 affine maps through supersample, results "
